@@ -101,7 +101,10 @@ def generate(seed: int, tier: str) -> Dict[str, Any]:
     else:
         pre = {}
         seq = 0
-        for g in sorted(r.sample([1, 2, 3, 4, 5], r.randint(0, 3)), reverse=True):
+        # generation numbers left by earlier runs, some with a larger backup count (two digits: "10" sorts before "2" as text)
+        pool = [1, 2, 3, 4, 5] if r.chance(0.7) else [1, 2, 3, 4, 9, 10, 11, 12, 20]
+        backs = [1, 2, 3, 4] if pool[-1] == 5 else [1, 2, 3, 4, 10, 11]
+        for g in sorted(r.sample(pool, r.randint(0, 3 if pool[-1] == 5 else 5)), reverse=True):
             pre[str(g)] = list(range(seq, seq + r.randint(1, 2)))
             seq += len(pre[str(g)])
         ops = []
@@ -110,12 +113,12 @@ def generate(seed: int, tier: str) -> Dict[str, Any]:
             if x < 0.45:
                 ops.append({"op": "append", "n": r.randint(1, 3)})
             elif x < 0.7:
-                ops.append({"op": "rotate", "backups": r.randint(1, 4)})
+                ops.append({"op": "rotate", "backups": r.choice(backs)})
             elif x < 0.85:
-                ops.append({"op": "rotate", "backups": r.randint(1, 4), "kill_at": r.randint(0, 12)})
+                ops.append({"op": "rotate", "backups": r.choice(backs), "kill_at": r.randint(0, 12)})
             else:
                 # a rotation step that FAILS (the other way a rotation is interrupted): the rename / unlink returns an error
-                ops.append({"op": "rotate", "backups": r.randint(1, 4), "fail_at": r.randint(0, 8),
+                ops.append({"op": "rotate", "backups": r.choice(backs), "fail_at": r.randint(0, 8),
                             "errno": r.choice(["EIO", "ENOSPC", "EACCES", "EBUSY", "EXDEV"]), "times": r.choice([1, -1])})
         p.update({"pre": pre, "pre_count": seq, "ops": ops})
     return p
@@ -382,7 +385,13 @@ def _rotation(p: Dict[str, Any], stats: Dict[str, int]) -> List[Dict[str, Any]]:
                 before = snapshot()
                 retry = False
                 n = int(op["backups"])
-                oldest_before = set(before.get("t1.jsonl.%d" % n, []))
+                # what a rotation keeping n generations may drop: everything numbered n or beyond (leftovers of a larger
+                # backup count included) - but never a generation while an older one stays (checked below)
+                oldest_before = set()
+                for gname, recs in before.items():
+                    suf = gname.rsplit(".", 1)[1] if gname.startswith("t1.jsonl.") else ""
+                    if suf.isdigit() and int(suf) >= n:
+                        oldest_before |= set(recs)
                 if chain is not None and chain["backups"] == n:
                     # the previous rotation (same depth) was interrupted before the live log moved: this one is its completion, and
                     # together they may lose what ONE rotation may lose - the generation that was oldest when the first attempt began
@@ -424,6 +433,13 @@ def _rotation(p: Dict[str, Any], stats: Dict[str, int]) -> List[Dict[str, Any]]:
                 if not lost <= oldest_before:
                     viol.append({"cls": "rotation", "sig": ("rotation:retry-lost-another-generation" if retry else "rotation:lost-more-than-oldest%s" % (":failed-step" if killed == "error" or "fail_at" in op else (":killed" if killed else ""))),
                                  "detail": "lost %s, the then-oldest generation held %s; %s" % (sorted(lost), sorted(oldest_before), ctx)})
+                if lost and not killed:
+                    # "without losing any but the oldest": whatever is dropped is older than everything kept
+                    order = gens(before)
+                    kept_old = [x for x in order if x not in lost]
+                    if kept_old and max(order.index(x) for x in lost) > min(order.index(x) for x in kept_old):
+                        viol.append({"cls": "rotation", "sig": "rotation:lost-a-generation-younger-than-a-kept-one",
+                                     "detail": "lost %s although older records %s stay; %s" % (sorted(lost), [x for x in kept_old if order.index(x) < max(order.index(y) for y in lost)][:6], ctx)})
                 if viol:
                     break
         finally:
